@@ -4,8 +4,8 @@
    <= 2 and second arc <= 39 (what the writer accepts), every field shorter than 2^32 octets, optional
    parameters None or non-empty (the code tests truthiness, so present-but-empty is written as absent). *)
 From V Require Import Prelude.Base Prelude.PyInt Prelude.PySlice Prelude.PyStr.
-From V Require Import Model.Types Model.KeyId Model.Asn1 Model.Pkcs7 Model.Blob Spec.DerSpec.
-From V Require Import Proofs.BlobLib Proofs.BlobPkcs7 Proofs.GkdiKeyId Proofs.BlobMain.
+From V Require Import gen.K_asn1 gen.C_asn1 Model.Types Model.KeyId Model.Asn1 Model.Pkcs7 Model.Blob Spec.DerSpec Spec.CmsSpec.
+From V Require Import Proofs.BlobLib Proofs.BlobPkcs7 Proofs.GkdiKeyId Proofs.BlobMain Proofs.BlobCms.
 
 Theorem C06_oids : oid_enveloped_data = [1; 2; 840; 113549; 1; 7; 3] /\ oid_data = [1; 2; 840; 113549; 1; 7; 1] /\
   oid_ms_software = [1; 3; 6; 1; 4; 1; 311; 74; 1] /\ oid_pd_sid = [1; 3; 6; 1; 4; 1; 311; 74; 1; 1] /\
@@ -17,7 +17,7 @@ Print Assumptions C06_oids.
    (env = false) layouts; the ContentInfo part is one TLV whose header gives its exact length *)
 Theorem C06_decode_encode : forall b env, wf_blob b = true ->
   exists ci, blob_pack b env = Ok (ci ++ trailing b env) /\ blob_unpack (ci ++ trailing b env) = Ok b /\
-    (exists h, forall rest, peek_header (ci ++ rest) = Ok h /\ h_tlen h + h_len h = len ci).
+    (exists h, forall rest, peek_header (ci ++ rest) = Ok h /\ h_tlen h + h_len h = len ci) /\ len ci < BIG.
 Proof. exact blob_roundtrip. Qed.
 Print Assumptions C06_decode_encode.
 
@@ -25,3 +25,49 @@ Theorem C06_reencode : forall b env, wf_blob b = true ->
   exists bs b', blob_pack b env = Ok bs /\ blob_unpack bs = Ok b' /\ blob_pack b' env = Ok bs.
 Proof. exact blob_reencode. Qed.
 Print Assumptions C06_reencode.
+
+(* versions 2 and 4, the [2] KEKRecipientInfo choice, [0] content tags, 12-byte nonce and ICV length 16 are the
+   values in the current source (regenerated kernels / constants) *)
+Theorem C06_constants : k_blob_ed_version = 2 /\ k_blob_kri_version = 4 /\ c_kekri_choice = 2 /\
+  k_ci_content_tagnum = 0 /\ k_ci_content_tagnum_r = 0 /\ k_eci_content_tagnum = 0 /\ k_eci_content_tagnum_r = 0 /\
+  k_gcm_nonce_len = 12 /\ k_gcm_icv_len = 16 /\ (forall v, k_ed_version_bad v = negb (v =? 2)).
+Proof. repeat split; reflexivity. Qed.
+Print Assumptions C06_constants.
+
+(* pack = the RFC 5652 template of Spec/CmsSpec.v (one ContentInfo; EnvelopedData version 2 with exactly one
+   KEKRecipientInfo version 4 whose KEK identifier carries the protection-descriptor attribute) followed by the
+   ciphertext in the trailing layout. kb = packed key identifier, sc = UTF-8 of the SID, d1/d2 = DER of the OIDs *)
+Theorem C06_is_cms : forall b env kb sc d1 d2, wf_blob b = true ->
+  KeyIdentifier_pack (b_key_identifier b) = Ok kb -> utf8_encode (b_sid b) = Ok sc ->
+  der_oid (b_enc_cek_algorithm b) d1 -> der_oid (b_enc_content_algorithm b) d2 ->
+  exists ci, blob_pack b env = Ok (ci ++ trailing b env) /\
+    encode (cms_tree kb sc (b_enc_cek b) d1 (b_enc_cek_parameters b) (if env then b_enc_content b else []) d2 (b_enc_content_parameters b)) = Ok ci.
+Proof. exact blob_is_cms. Qed.
+Print Assumptions C06_is_cms.
+
+(* what _encrypt_blob emits: AES256-wrap without parameters, AES256-GCM with SEQUENCE { OCTET STRING nonce, INTEGER 16 },
+   content in the envelope; the bytes are the emitted template, and the strict DER reader of C07 reads them back
+   as exactly that tree *)
+Theorem C06_emitted_template : forall kid sid iv cek content, wf_emit kid sid iv cek content = true ->
+  exists b kb sc ci, encrypt_blob_fields kid sid iv cek content = Ok b /\ wf_blob b = true /\
+    KeyIdentifier_pack kid = Ok kb /\ utf8_encode sid = Ok sc /\
+    b_enc_cek_algorithm b = oid_aes256_wrap /\ b_enc_cek_parameters b = None /\ b_enc_content_algorithm b = oid_aes256_gcm /\
+    blob_pack b true = Ok ci /\ encode (emitted_tree kb sc cek iv content) = Ok ci /\
+    strict_parse ci = Some [emitted_tree kb sc cek iv content].
+Proof. exact emitted_is_template. Qed.
+Print Assumptions C06_emitted_template.
+
+(* the hypotheses are satisfiable: 70 000-byte content, non-BMP forest name, both layouts *)
+Definition ex_kid : key_identifier :=
+  {| kid_version := 1; kid_flags := 3; kid_l0 := 361; kid_l1 := 16; kid_l2 := 3; kid_rkid := repeat 7 16;
+     kid_key_info := repeat 1 104; kid_domain := [100; 111; 109]; kid_forest := [128273; 46; 120] |}.
+Definition ex_blob : blob :=
+  {| b_key_identifier := ex_kid; b_sid := [83; 45; 49; 45; 49; 45; 48]; b_enc_cek := repeat 9 40;
+     b_enc_cek_algorithm := oid_aes256_wrap; b_enc_cek_parameters := None; b_enc_content := repeat 5 70000;
+     b_enc_content_algorithm := oid_aes256_gcm; b_enc_content_parameters := Some [48; 3; 2; 1; 16] |}.
+Example C06_ex_wf : wf_blob ex_blob = true /\ wf_emit ex_kid [83; 45; 49] (repeat 3 12) (repeat 9 40) (repeat 5 300) = true.
+Proof. split; vm_compute; reflexivity. Qed.
+Example C06_ex_layouts :
+  (match blob_pack ex_blob true with Ok bs => len bs | Raise _ => -1 end) = 70361 /\
+  (match blob_pack ex_blob false with Ok bs => len bs | Raise _ => -1 end) = 70350.
+Proof. split; vm_compute; reflexivity. Qed.
